@@ -7,6 +7,7 @@ package world
 import (
 	"crypto/ecdsa"
 	"encoding/binary"
+	"encoding/json"
 	"fmt"
 	"math/big"
 	"os"
@@ -156,6 +157,9 @@ type Spec struct {
 	Accounts []GenesisAccount
 	Mempool  *cfg.MempoolConfig
 	Time     uint64
+	// Candidates are elected validator candidates present from genesis: written into the candidates contract's storage
+	// (the layout state.GetAllCandidates / UpdateCandidateScore read) and into the genesis TxsResult.
+	Candidates []CandidateSeed
 }
 
 const DefaultChainID = "verif-chain"
@@ -165,6 +169,36 @@ const GenesisTime = uint64(1569409200)
 
 // PartSize is the block part size the harness uses.
 const PartSize = 65536
+
+// CandidateSeed is one elected candidate of the genesis.
+type CandidateSeed struct {
+	Pub         crypto.PubKey
+	CoinBase    common.Address
+	VotingPower int64
+	Score       int64
+	ProduceInfo int
+}
+
+// candidateSlots returns the storage of the candidates contract for the given candidates.
+func candidateSlots(cands []CandidateSeed) map[common.Hash][]byte {
+	out := map[common.Hash][]byte{}
+	le16 := func(n int) []byte { b := make([]byte, 2); binary.LittleEndian.PutUint16(b, uint16(n)); return b }
+	list := append([]byte{state.TagArray}, le16(len(cands))...)
+	for _, c := range cands {
+		key := "0x" + common.Bytes2Hex(c.Pub.Bytes()) + string(rune(0))
+		list = append(list, state.TagString)
+		list = append(list, le16(len(key))...)
+		list = append(list, key...)
+		packed := append([]byte("cand"), state.TagString)
+		packed = append(packed, le16(len(key))...)
+		packed = append(packed, key...)
+		js, _ := json.Marshal(state.CandidateJSON{PubKey: "0x" + common.Bytes2Hex(c.Pub.Bytes()), CoinBase: c.CoinBase, VotingPower: c.VotingPower, Score: c.Score})
+		val := append([]byte{0x08, 0x01, 0x01}, js...)
+		out[crypto.Keccak256Hash(packed)] = append(val, 0)
+	}
+	out[crypto.Keccak256Hash([]byte("pubkeys"))] = list
+	return out
+}
 
 // Genesis writes block 0 and the funded state into dbs, like createGenesisBlock in cmd/commands/init.go.
 func Genesis(spec *Spec, dbs *DBSet) error {
@@ -177,6 +211,9 @@ func Genesis(spec *Spec, dbs *DBSet) error {
 	blockStore := bc.NewBlockStore(dbs.Block)
 	blockStore.SaveInitHeight(types.BlockHeightZero)
 	accts := append([]GenesisAccount(nil), spec.Accounts...)
+	if len(spec.Candidates) > 0 {
+		accts = append(accts, GenesisAccount{Addr: cfg.ContractCandidatesAddr, Nonce: 1, Storage: candidateSlots(spec.Candidates)})
+	}
 	sort.Slice(accts, func(i, j int) bool { return accts[i].Addr.Hex() < accts[j].Addr.Hex() })
 	for _, a := range accts {
 		if a.Balance != nil {
@@ -227,6 +264,13 @@ func Genesis(spec *Spec, dbs *DBSet) error {
 	}
 	storeState.Database().TrieDB().Commit(trieRoot, false)
 	txsResult := types.TxsResult{TrieRoot: trieRoot, StateHash: stateHash}
+	if len(spec.Candidates) > 0 {
+		var cs []*types.CandidateInOrder
+		for _, c := range spec.Candidates {
+			cs = append(cs, &types.CandidateInOrder{Candidate: types.Candidate{Address: c.Pub.Address(), PubKey: c.Pub, VotingPower: c.VotingPower, CoinBase: c.CoinBase}, ProduceInfo: c.ProduceInfo, Score: c.Score})
+		}
+		txsResult.SetCandidates(cs)
+	}
 	header.StateHash = stateHash
 	block := &types.Block{Header: header, Data: &types.Data{}, LastCommit: &types.Commit{}}
 	blockStore.SaveBlock(block, block.MakePartSet(PartSize), nil, nil, &txsResult)
@@ -248,6 +292,9 @@ type World struct {
 	App        *app.LinkApplication
 	Mempool    *mempool.Mempool
 	ChainID    string
+	// Evidence is put into the next block FillHeader completes (the way createProposalBlock adds the evidence pool's
+	// pending evidence and the fault-validator evidence); the caller clears it.
+	Evidence []types.Evidence
 }
 
 // DefaultMempoolConfig is the node default without p2p broadcast.
@@ -331,6 +378,9 @@ func (w *World) FillHeader(block *types.Block, coinbase common.Address, lastComm
 	block.LastCommit = lastCommit
 	if meta := w.BlockStore.LoadBlockMeta(w.Height()); meta != nil {
 		block.LastBlockID = meta.BlockID
+	}
+	if len(w.Evidence) > 0 && len(block.Evidence.Evidence) == 0 {
+		block.AddEvidence(w.Evidence)
 	}
 	block.LastCommitHash = block.LastCommit.Hash()
 	block.EvidenceHash = block.Evidence.Hash()
